@@ -49,6 +49,11 @@ SPECS = [
     "wt_http_scope=p2p/transport/webtransport/listener.go:listener.httpHandlerWithConnScope",
     "relay_dial=p2p/protocol/circuitv2/client/transport.go:Client.Dial",
     "relay_dial_up=p2p/protocol/circuitv2/client/transport.go:Client.dialAndUpgrade",
+    "rtc_cand=p2p/transport/webrtc/listener.go:listener.handleCandidate",
+    "rtc_setup=p2p/transport/webrtc/listener.go:listener.setupConnection",
+    "rtc_listen_go=p2p/transport/webrtc/listener.go:listener.listen#go0",
+    "rtc_dial=p2p/transport/webrtc/transport.go:WebRTCTransport.Dial",
+    "rtc_dial_inner=p2p/transport/webrtc/transport.go:WebRTCTransport.dial",
 ]
 
 
